@@ -141,8 +141,9 @@ theorem doc_quote_newline_stable (doc : List Char) :
     universalNl (quoteDocstring doc) = quoteDocstring doc :=
   universalNl_noCr _ (quoteDocstring_noCr doc)
 
-/-- … and neither does the line re-join `"\n".join(source.splitlines())` that the `Formula`
-constructor and `FunctionDefParser` apply to the source of a def: a docstring written by
+/-- … and neither does the line re-join `"\n".join(source.splitlines())` that `FunctionDefParser`
+applies to the source of a def when a model is read (the `Formula` constructor cuts at `\r\n`, `\r`,
+`\n` only since 067a1c5 – a coarser cut, for which the same holds): a docstring written by
 `quote_docstring` (`set_doc`) inside a def whose text before it has no such character
 either stays where it is, character for character. -/
 theorem doc_quote_survives_line_rejoin (doc pre post : List Char)
@@ -184,18 +185,56 @@ theorem unescaped_text_was_unreadable_or_changed :
 
 /-! ## Dispatch tables (regenerated from `serializer_6.py` on every run) -/
 
+/-- the `condition` of every encoder and decoder class is, as source text, the one the dispatch
+model (`Kernels/Dispatch.lean`) was written for -/
+theorem conditions_as_modelled :
+    encoderConditions = modelledEncoderConditions ∧ decoderConditions = modelledDecoderConditions := by
+  decide +kernel
+
 /-- every reference value finds an encoder: the last class of `EncoderSelector` accepts
 everything (so `select` never returns `None`) -/
 theorem every_value_has_an_encoder :
-    ∃ e, encoderClasses.getLast? = some e ∧ e ∈ unconditionalClasses := by decide
+    ∃ e, encoderClasses.getLast? = some e ∧ encoderConditions.lookup e = some (alwaysCondition "(cls, ref, writer)") := by
+  decide +kernel
 
-/-- what an encoder writes is taken by the decoder made for it: for every encoder that tags
-its output, the FIRST decoder accepting the tag has that tag as its `DECTYPE` (the catch-all
-`LiteralDecoder` does not get in before it), and an untagged right-hand side (a literal)
-falls through to the unconditional decoder. -/
+/-- every right-hand side finds a decoder, whatever its tag -/
+theorem decoder_selection_total (tag : String) : (selectDecoder tag).isSome = true := by
+  unfold selectDecoder
+  rw [List.find?_isSome]
+  refine ⟨("LiteralDecoder", ""), by decide +kernel, ?_⟩
+  have h : decoderConditions.lookup "LiteralDecoder" = some (alwaysCondition "(cls, node)") := by
+    decide +kernel
+  simp only [decoderAccepts, h, if_true]
+
+/-- what an encoder writes is taken by the decoder made for it: for every encoder that tags its
+output, the FIRST decoder accepting the tag has that tag as its `DECTYPE` (the catch-all does not
+get in before it); an encoder that writes bare text is one whose `condition` admits values of the
+literal types only, and bare text falls through to the unconditional decoder.  (An encoder for
+which the translator finds no tag is an extraction problem, and would fail here too: its condition
+is not the literal one.) -/
 theorem decoder_matches_encoder :
     ∀ e ∈ encoderTags, ∃ d, selectDecoder e.2 = some d ∧
-      (if e.2 = "" then d.1 ∈ unconditionalClasses else d.2 = e.2) := by decide
+      (if e.2 = "" then encoderConditions.lookup e.1 = some literalCondition ∧
+          decoderConditions.lookup d.1 = some (alwaysCondition "(cls, node)")
+       else d.2 = e.2) := by decide +kernel
+
+/-- a tag kept for files of older versions (`DECTYPE_COMPAT`) is not a tag any encoder writes or
+any decoder has as its own: it never diverts what the current version writes -/
+theorem compat_tags_do_not_compete :
+    ∀ c ∈ decoderCompatTags, c.2 ∉ encoderTags.map (·.2) ∧ c.2 ∉ decoderTags.map (·.2) := by decide +kernel
+
+/-- every type `LiteralEncoder` admits has a text form that `LiteralDecoder` reads back -/
+theorem literal_types_have_a_text_form : ∀ t ∈ literalTypes, t ∈ textLiteralTypes := by decide +kernel
+
+/-- the pickled values are read (`read_pickledata()`) before every phase that looks them up:
+cells inputs, references (`restore()` of the Pickle/IOSpec/Interface decoders), ItemSpace inputs;
+and parsing comes first -/
+theorem pickledata_read_before_use :
+    readerSteps.head? = some ("parse_dir", 0) ∧
+    callBefore "read_pickledata" "load_pickledata" = true ∧
+    callBefore "read_pickledata" "set_ref" = true ∧
+    callBefore "read_pickledata" "__setattr__" = true ∧
+    callBefore "read_pickledata" "_set_dynamic_inputs" = true := by decide +kernel
 
 /-- no deferred instruction is left behind: every name under which a parser files an
 instruction is executed at parse time or in one of the phases of `_read_model_inner` -/
@@ -427,8 +466,11 @@ example : ((run [⟨.dir, 3, ["a", "b"]⟩, ⟨.zip, 3, ["a"]⟩, ⟨.dir, 0, ["
 
 end SaveStep
 
-example : selectDecoder "Pickle" = some ("PickleDecoder", "Pickle") := by decide
-example : selectDecoder "" = some ("LiteralDecoder", "") := by decide
+example : selectDecoder "Pickle" = some ("PickleDecoder", "Pickle") := by decide +kernel
+example : selectDecoder "" = some ("LiteralDecoder", "") := by decide +kernel
+example : selectDecoder "DataSpec" = some ("IOSpecDecoder", "IOSpec") := by decide +kernel
+example : selectDecoder "NoSuchTag" = some ("LiteralDecoder", "") := by decide +kernel
+example : callStep "read_pickledata" = some 3 ∧ methodStep "load_pickledata" = some 4 := by decide
 example : phaseOf "_set_dynamic_inputs" = some 4 := by decide
 
 end MxModel.C04
